@@ -47,7 +47,7 @@ PROPS['C03'] = {
 
 PROPS['C11'] = {
     'level': 'proof',
-    'verus': [{'unit': 'table', 'fns': ['ClaimTable::lookup', 'ClaimTable::housekeep', 'ClaimTable::cache', 'ClaimTable::new', 'lemma_filter.*']}],
+    'verus': [{'unit': 'table', 'fns': ['ClaimTable::lookup', 'ClaimTable::housekeep', 'ClaimTable::cache', 'ClaimTable::new', 'ClaimTable::set_claims', 'ClaimTable::remove_claims', 'lemma_.*']}],
     'native_search': {r'table::.*': TABLE_MODEL},
     'kani': {
         'files': {'src/types.rs': ['kani/types.rs'], 'src/cloud.rs': ['kani/cloudblocks.rs.in']},
@@ -237,7 +237,7 @@ TABLE_TRUSTED = [
 PROPS['C12'] = {
     'level': 'proof',
     'verus': [{'unit': 'table', 'fns': TABLE_FNS}],
-    'native_search': {'table::ClaimTable::set_claims': {'file': 'native/table_setclaims.rs', 'attach': 'src/table.rs', 'test': 'claims_equal_last_announcement'},
+    'native_search': {'table::ClaimTable::set_claims': [{'file': 'native/table_setclaims.rs', 'attach': 'src/table.rs', 'test': 'claims_equal_last_announcement'}, TABLE_MODEL],
                       r'table::.*': TABLE_MODEL},
     'trusted': TABLE_TRUSTED,
     'not_decided': [
